@@ -1302,7 +1302,7 @@ impl LastValueAccumulator {
                 }
                 return Ok(None);
             } else {
-                return Ok((!value.is_empty()).then_some(value.len() - 1));
+                return Ok((!value.is_empty()).then(|| value.len() - 1));
             }
         }
 
